@@ -1,406 +1,243 @@
-"""Hunt round 3 for C16 (widening a target never loses wheels; compare() vs tag inclusion).
+"""Hunt for NEW violations of C16 on the unmodified tree (fourth round).
 
-Run:  cd /tmp/wt/C16i && PYTHONPATH=/tmp/wt/C16i/src /venv/bin/python hunt_C16.py [N] [seed]
-
-Everything is judged against an independent oracle:
-  * inclusion of requires_python ranges: packaging.SpecifierSet.contains over a grid of
-    final releases (alternatives of a `||` union are separate SpecifierSets);
-  * inclusion of platform tag sets: plain set inclusion of Platform.compatible_tags;
-  * compare(): the algebraic laws of the property statement.
-The script prints every violation it finds (and classifies those that belong to an
-already-known family), then a summary of the number of cases per area.
+Run: cd /tmp/wt/C16j && PYTHONPATH=/tmp/wt/C16j/src /venv/bin/python hunt_C16.py
+Prints every candidate violation with input / observed / expected, then a summary.
 """
 
 from __future__ import annotations
 
 import itertools
 import random
-import sys
 
 from packaging.specifiers import SpecifierSet
 from packaging.version import Version
 
 from dep_logic.specifiers import (
     AnySpecifier,
-    RangeSpecifier,
-    UnionSpecifier,
+    EmptySpecifier,
     from_specifierset,
     parse_version_specifier,
 )
-from dep_logic.tags import EnvSpec, Implementation, Platform
-from dep_logic.tags.os import Macos, Manylinux, Musllinux, Windows
-from dep_logic.tags.platform import Arch
+from dep_logic.tags import EnvSpec
+from dep_logic.tags import os as dlos
+from dep_logic.tags.platform import Arch, Platform, PlatformError
 from dep_logic.tags.tags import EnvCompatibility as EC
+from dep_logic.tags.tags import Implementation
 
-N = int(sys.argv[1]) if len(sys.argv) > 1 else 20000
-SEED = int(sys.argv[2]) if len(sys.argv) > 2 else 16
-rnd = random.Random(SEED)
-
-# ---------------------------------------------------------------- version grid
-GRID = [
-    Version(f"{ma}.{mi}.{mc}")
-    for ma, mis in ((2, range(6, 8)), (3, range(0, 16)), (4, range(0, 2)))
-    for mi in mis
-    for mc in range(0, 5)
-]
-
-BOUNDS = ["2.7", "3", "3.0", "3.6", "3.8", "3.9", "3.9.0", "3.9.2", "3.10", "3.10.0",
-          "3.10.3", "3.11", "3.12", "3.13", "3.13.1", "4", "4.0", "3.9.0.0", "03.010"]
+found: list[str] = []
+cases = 0
 
 
-def rnd_clause() -> str:
-    k = rnd.random()
-    v = rnd.choice(BOUNDS)
-    if k < 0.45:
-        return rnd.choice([">=", ">", "<", "<="]) + v
-    if k < 0.55:
-        return "==" + v
-    if k < 0.70:
-        pre = v.split(".")
-        return rnd.choice(["==", "!="]) + ".".join(pre[: rnd.randint(1, len(pre))]) + ".*"
-    if k < 0.80:
-        return "!=" + v
-    if "." in v:
-        return "~=" + v
-    return ">=" + v
+def report(msg: str) -> None:
+    found.append(msg)
+    print("VIOLATION:", msg)
 
 
-def rnd_alt() -> str:
-    return ",".join(rnd_clause() for _ in range(rnd.choice([1, 1, 2, 2, 3])))
-
-
-def rnd_spec_text() -> list[str]:
-    return [rnd_alt() for _ in range(rnd.choice([1, 1, 1, 2, 3]))]
-
-
-def oracle_set(alts: list[str]) -> frozenset[Version]:
-    sets = [SpecifierSet(a) for a in alts]
-    return frozenset(v for v in GRID if any(s.contains(v, prereleases=True) for s in sets))
-
-
-def build_spec(alts: list[str]):
-    """Build the library object through a randomly chosen public route."""
-    route = rnd.randrange(4)
-    try:
-        if route == 0:
-            return parse_version_specifier("||".join(alts))
-        if route == 1:
-            acc = None
-            for a in alts:
-                s = from_specifierset(SpecifierSet(a))
-                acc = s if acc is None else (acc | s)
-            return acc
-        if route == 2:
-            acc = None
-            for a in reversed(alts):
-                s = parse_version_specifier(a)
-                acc = s if acc is None else (s | acc)
-            return acc
-        # double inversion
-        s = parse_version_specifier("||".join(alts))
-        return ~(~s)
-    except Exception as e:  # pragma: no cover
-        print("EXC building", alts, type(e).__name__, e)
-        return None
-
-
-# ---------------------------------------------------------------- tag universe
-PY_TAGS = ["py2", "py3", "py27", "py30", "py36", "py39", "py310", "py312", "cp27", "cp3",
-           "cp36", "cp38", "cp39", "cp310", "cp311", "cp312", "cp313", "cp314", "pp39",
-           "pp310", "pt39", "cp4", "py4", "cp40"]
-
-
-def abis_for(py: str) -> list[str]:
-    out = ["none", "abi3"]
-    if py[:2] in ("cp", "pt"):
-        out += [py, py + "m", py + "t", py + "d", py + "0", py + "td"]
-    if py[:2] == "pp":
-        out += [f"pypy{py[2:]}_pp73", f"pypy{py[2:]}0_pp73"]
+# ---------------------------------------------------------------------------
+# 1. platform grid: nestedness of tag sets, compare() laws
+# ---------------------------------------------------------------------------
+def platform_grid() -> list[Platform]:
+    out: list[Platform] = []
+    for arch in Arch:
+        for minor in (0, 4, 5, 6, 11, 12, 13, 16, 17, 18, 24, 28, 31, 35, 39, 40):
+            out.append(Platform(dlos.Manylinux(2, minor), arch))
+        for minor in (0, 1, 2, 3):
+            out.append(Platform(dlos.Musllinux(1, minor), arch))
+    for minor in range(0, 17):
+        out.append(Platform(dlos.Macos(10, minor), Arch.X86_64))
+    for major in range(11, 17):
+        for minor in (0, 1, 7):
+            out.append(Platform(dlos.Macos(major, minor), Arch.X86_64))
+            out.append(Platform(dlos.Macos(major, minor), Arch.Aarch64))
+    for arch in (Arch.X86, Arch.X86_64, Arch.Aarch64):
+        out.append(Platform(dlos.Windows(), arch))
+    for name in Platform.choices():
+        if "X_Y" not in name:
+            out.append(Platform.parse(name))
     return out
 
 
-ARCHES = [Arch.X86_64, Arch.Aarch64, Arch.X86, Arch.Powerpc64Le, Arch.Armv7L, Arch.S390X,
-          Arch.RISCV64, Arch.LoongArch64, Arch.Armv6L, Arch.Powerpc64]
-
-
-def rnd_platform() -> Platform:
-    k = rnd.randrange(8)
-    if k == 0:
-        return Platform(Windows(), rnd.choice([Arch.X86_64, Arch.X86, Arch.Aarch64]))
-    if k in (1, 2):
-        return Platform(Manylinux(2, rnd.choice([0, 4, 5, 6, 11, 12, 13, 16, 17, 18, 28, 31, 39])),
-                        rnd.choice(ARCHES))
-    if k == 3:
-        return Platform(Musllinux(1, rnd.randint(0, 3)), rnd.choice(ARCHES))
-    if k == 4:
-        return Platform(Macos(10, rnd.randint(3, 16)), Arch.X86_64)
-    if k == 5:
-        return Platform(Macos(rnd.randint(11, 16), rnd.randint(0, 7)), Arch.X86_64)
-    if k == 6:
-        return Platform(Macos(rnd.randint(11, 16), rnd.randint(0, 7)), Arch.Aarch64)
-    return Platform.parse(rnd.choice(["linux", "windows", "macos", "alpine", "macos_arm64",
-                                      "macos_x86_64", "windows_amd64", "windows_x86",
-                                      "windows_arm64", "windows_i686", "macos_11_3_amd64",
-                                      "manylinux_2_28_arm64", "musllinux_1_1_i386"]))
-
-
-def plat_universe() -> list[str]:
-    tags = {"any"}
-    for a in ("x86_64", "aarch64", "x86", "i686", "ppc64le", "armv7l", "s390x", "riscv64",
-              "loongarch64", "armv6l", "ppc64", "arm64", "amd64"):
-        tags |= {f"linux_{a}", f"manylinux1_{a}", f"manylinux2010_{a}", f"manylinux2014_{a}"}
-        for m in (0, 4, 5, 6, 11, 12, 13, 16, 17, 18, 24, 28, 31, 39, 40):
-            tags.add(f"manylinux_2_{m}_{a}")
-        for m in range(0, 5):
-            tags.add(f"musllinux_1_{m}_{a}")
-    for f in ("x86_64", "arm64", "intel", "fat64", "fat32", "universal2", "universal", "i386"):
-        for m in range(3, 18):
-            tags.add(f"macosx_10_{m}_{f}")
-        for M in range(11, 18):
-            for m in (0, 1, 3):
-                tags.add(f"macosx_{M}_{m}_{f}")
-    tags |= {"win32", "win_amd64", "win_arm64", "win_ia64"}
-    return sorted(tags)
-
-
-PLAT_UNIVERSE = plat_universe()
-IMPLS = [None, Implementation("cpython"), Implementation("cpython", True),
-         Implementation("pypy"), Implementation("pyston"),
-         Implementation.parse("cpython", 1)]  # truthy non-bool flag
-
-violations: list[str] = []
-known: list[str] = []
-counts = {"python-widening": 0, "platform-widening": 0, "compare-laws": 0,
-          "compare-nesting": 0, "roundtrip": 0, "exotic": 0}
-
-
-def report(kind: str, msg: str, known_family: str | None = None) -> None:
-    line = f"[{kind}] {msg}"
-    if known_family:
-        known.append(line + f"   ({known_family})")
-    else:
-        violations.append(line)
-        print("VIOLATION", line)
-
-
-# ------------------------------------------------- 1. widening requires_python
-def check_python_widening() -> None:
-    a_text, b_text = rnd_spec_text(), rnd_spec_text()
-    if rnd.random() < 0.5:
-        b_text = b_text + a_text  # make inclusion frequent
-    sa, sb = oracle_set(a_text), oracle_set(b_text)
-    if not sa <= sb:
-        return
-    ra, rb = build_spec(a_text), build_spec(b_text)
-    if ra is None or rb is None or ra.is_empty() or rb.is_empty():
-        return
-    plat = rnd.choice([None, rnd_platform()])
-    impl = rnd.choice(IMPLS)
-    A, B = EnvSpec(ra, plat, impl), EnvSpec(rb, plat, impl)
-    for _ in range(12):
-        py = rnd.sample(PY_TAGS, rnd.choice([1, 1, 2]))
-        abi = rnd.sample(sorted({x for p in py for x in abis_for(p)}), rnd.choice([1, 1, 2]))
-        pl = rnd.sample(PLAT_UNIVERSE, 2) + ["any"] + (plat.compatible_tags[:1] if plat else [])
-        pl = rnd.sample(pl, rnd.choice([1, 2]))
-        counts["python-widening"] += 1
-        ca, cb = A.compatibility(py, abi, pl), B.compatibility(py, abi, pl)
-        if ca is not None and cb is None:
-            # is the witness inside the grid?  (otherwise family 18 / 6 / 10)
-            msg = f"A={A} B={B} wheel={py}-{abi}-{pl}: A->{ca} B->{cb}"
-            if not sa:
-                report("python-widening", msg, "known family 18: A admits no final release of the grid")
-            else:
-                report("python-widening", msg)
-
-
-# ------------------------------------------------- 2. widening platform
-def newer_release(p: Platform) -> Platform | None:
-    o = p.os
-    if isinstance(o, Manylinux):
-        return Platform(Manylinux(2, o.minor + rnd.randint(0, 12)), p.arch)
-    if isinstance(o, Musllinux):
-        return Platform(Musllinux(1, o.minor + rnd.randint(0, 3)), p.arch)
-    if isinstance(o, Macos):
-        if o.major == 10 and rnd.random() < 0.5:
-            return Platform(Macos(10, rnd.randint(o.minor, 16)), p.arch)
-        return Platform(Macos(rnd.randint(max(o.major, 11), 17), rnd.randint(0, 6)), p.arch)
-    return None
-
-
-def check_platform_widening() -> None:
-    pa = rnd_platform()
-    pb = newer_release(pa)
-    if pb is None:
-        return
-    counts["platform-widening"] += 1
-    ta, tb = pa.compatible_tags, pb.compatible_tags
-    if not set(ta) <= set(tb):
-        report("platform-widening", f"{pa} -> {pb}: lost {sorted(set(ta) - set(tb))[:4]}")
-    # relative order (priority) of the shared tags is preserved as well
-    shared = [t for t in tb if t in set(ta)]
-    if shared != ta:
-        report("platform-widening", f"{pa} -> {pb}: order of shared tags differs")
-    rp = parse_version_specifier(rnd.choice([">=3.8", "==3.11.*", "<3.12,>=3.9"]))
-    impl = rnd.choice(IMPLS)
-    A, B = EnvSpec(rp, pa, impl), EnvSpec(rp, pb, impl)
-    for t in rnd.sample(PLAT_UNIVERSE, 25) + ta[:3]:
-        for py, abi in (("py3", "none"), ("cp311", "cp311"), ("cp39", "abi3")):
-            ca, cb = A.compatibility([py], [abi], [t]), B.compatibility([py], [abi], [t])
-            if ca is not None and cb is None:
-                report("platform-widening", f"{A} -> {B}: wheel {py}-{abi}-{t} lost")
-
-
-# ------------------------------------------------- 3. compare laws + nesting
-def rnd_env() -> EnvSpec | None:
-    rp = build_spec(rnd_spec_text())
-    if rp is None or rp.is_empty():
-        return None
-    if rnd.random() < 0.05:
-        rp = AnySpecifier()
-    return EnvSpec(rp, rnd.choice([None, rnd_platform(), rnd_platform()]), rnd.choice(IMPLS))
-
-
-POOL: list[EnvSpec] = []
-
-
-def check_compare() -> None:
-    a, b = rnd_env(), rnd_env()
-    if a is None or b is None:
-        return
-    if POOL and rnd.random() < 0.5:
-        # vary one field only: hits the interesting branches far more often
-        base = rnd.choice(POOL)
-        b = EnvSpec(rnd.choice([base.requires_python, b.requires_python]),
-                    rnd.choice([base.platform, b.platform, newer_release(base.platform)
-                                if base.platform else None]),
-                    rnd.choice([base.implementation, b.implementation]))
-        a = base
-    POOL.append(a)
-    del POOL[:-200]
-    counts["compare-laws"] += 1
-    if a.compare(a) != EC.LOWER_OR_EQUAL:
-        report("compare", f"not reflexive: {a}")
-    a2 = EnvSpec.from_spec(**a.as_dict()) if not a.requires_python.is_any() or True else a
-    counts["roundtrip"] += 1
-    if a2 != a or hash(a2) != hash(a) or a2.compare(a) != EC.LOWER_OR_EQUAL or a.compare(a2) != EC.LOWER_OR_EQUAL:
-        report("roundtrip", f"from_spec(**as_dict()) differs: {a!r} -> {a.as_dict()} -> {a2!r}")
-    ab, ba = a.compare(b), b.compare(a)
-    if (ab == EC.INCOMPATIBLE) != (ba == EC.INCOMPATIBLE):
-        report("compare", f"INCOMPATIBLE not symmetric: {a} vs {b}: {ab!r} / {ba!r}")
-    if ab == EC.HIGHER and ba == EC.HIGHER:
-        report("compare", f"HIGHER both ways: {a} vs {b}")
-    if a.platform is not None and b.platform is not None and ab != EC.INCOMPATIBLE:
-        counts["compare-nesting"] += 1
-        ta, tb = set(a.platform.compatible_tags), set(b.platform.compatible_tags)
+def check_platform_pairs() -> None:
+    global cases
+    plats = platform_grid()
+    rp = parse_version_specifier(">=3.8")
+    for a, b in itertools.product(plats, repeat=2):
+        cases += 1
+        A, B = EnvSpec(rp, a), EnvSpec(rp, b)
+        ab, ba = A.compare(B), B.compare(A)
+        if a == b and ab != EC.LOWER_OR_EQUAL:
+            report(f"compare not reflexive for {a}: {ab!r}")
+        if (ab == EC.INCOMPATIBLE) != (ba == EC.INCOMPATIBLE):
+            report(f"INCOMPATIBLE not symmetric: {a} vs {b}: {ab!r} / {ba!r}")
+        if ab == EC.HIGHER and ba == EC.HIGHER:
+            report(f"HIGHER both ways: {a} vs {b}")
+        ta, tb = set(a.compatible_tags), set(b.compatible_tags)
         if ab == EC.LOWER_OR_EQUAL and not ta <= tb:
-            report("compare-nesting", f"{a} <= {b} but tags not nested: {sorted(ta - tb)[:3]}")
+            report(f"{a}.compare({b}) = LOWER_OR_EQUAL but tags not nested: {sorted(ta - tb)[:4]}")
         if ab == EC.HIGHER and not tb <= ta:
-            report("compare-nesting", f"{a} > {b} but tags not nested: {sorted(tb - ta)[:3]}")
-    # python overlap, judged by the oracle: INCOMPATIBLE on python grounds only if no shared version
-    if ab != EC.INCOMPATIBLE:
-        pass
+            report(f"{a}.compare({b}) = HIGHER but tags not nested: {sorted(tb - ta)[:4]}")
+        # newer release of the same OS/arch -> superset
+        if (
+            type(a.os) is type(b.os)
+            and a.arch == b.arch
+            and hasattr(a.os, "major")
+            and (a.os.major, a.os.minor) <= (b.os.major, b.os.minor)
+            and not ta <= tb
+        ):
+            report(f"newer release {b} loses tags of {a}: {sorted(ta - tb)[:4]}")
 
 
-# ------------------------------------------------- 4. hand-written exotic cases
-def exotic() -> None:
-    def chk(cond: bool, msg: str, fam: str | None = None) -> None:
-        counts["exotic"] += 1
-        if not cond:
-            report("exotic", msg, fam)
+# ---------------------------------------------------------------------------
+# 2. requires_python widening: every wheel compatible with A is compatible with B
+# ---------------------------------------------------------------------------
+VERSIONS = [
+    "2.7", "3", "3.0", "3.6", "3.8", "3.8.0", "3.9", "3.9.1", "3.9.18", "3.10",
+    "3.10.0", "3.10.2", "3.11", "3.12", "3.13", "3.13.1", "3.14", "4", "4.0",
+]
+OPS = [">=", ">", "<", "<=", "==", "!=", "~="]
+SAMPLES = [
+    Version(f"{ma}.{mi}.{pa}")
+    for ma in (2, 3, 4)
+    for mi in range(0, 16)
+    for pa in (0, 1, 2, 5, 18, 19)
+]
+PY_TAGS = ["py2", "py3", "py27", "py30", "py38", "py39", "py310", "py313", "py4",
+           "cp38", "cp39", "cp310", "cp311", "cp313", "cp314", "cp3", "pp39", "pp310", "pt38"]
+ABI_TAGS = ["none", "abi3", "cp38", "cp39", "cp310", "cp310t", "cp313", "cp313t", "cp314t",
+            "cp38m", "cp27mu", "pypy39_pp73", "pypy310_pp73", "pyston38_23"]
+IMPLS = [None, Implementation("cpython"), Implementation("cpython", True),
+         Implementation("pypy"), Implementation("pyston")]
 
-    # equal-but-differently-spelled specs / specs reached through different routes
-    pairs = [(">=3.9", ">=3.9.0"), ("==3.9.*", ">=3.9,<3.10"), ("~=3.9", ">=3.9,<4"),
-             ("~=3.9.0", "==3.9.*"), ("", ">=0"), ("!=3.9.*", "<3.9||>=3.10"),
-             (">=3.9,!=3.9.*", ">=3.10"), ("<3.9||>=3.9", ""), ("==3.*,>=3.9", "~=3.9")]
-    wheels = [(p, a, t) for p in PY_TAGS for a in abis_for(p) for t in ("any", "linux_x86_64")]
-    for x, y in pairs:
-        for plat in (None, Platform.parse("linux")):
-            for impl in IMPLS:
-                ex = EnvSpec.from_spec(x, str(plat) if plat else None,
-                                       impl.name if impl else None,
-                                       impl.gil_disabled if impl else False)
-                ey = EnvSpec(parse_version_specifier(y), plat, impl)
-                for w in wheels:
-                    cx = ex.compatibility([w[0]], [w[1]], [w[2]])
-                    cy = ey.compatibility([w[0]], [w[1]], [w[2]])
-                    chk((cx is None) == (cy is None),
-                        f"same set, different verdict: {x!r} vs {y!r} wheel {w}: {cx} / {cy}")
-                chk(ex.compare(ey) != EC.INCOMPATIBLE and ey.compare(ex) != EC.INCOMPATIBLE,
-                    f"same set judged incompatible: {x!r} vs {y!r}")
 
-    # objects built directly: AnySpecifier, unbounded RangeSpecifier, Union from `~`
-    any_envs = [EnvSpec(AnySpecifier()), EnvSpec(RangeSpecifier()), EnvSpec.from_spec("")]
-    for e1, e2 in itertools.product(any_envs, repeat=2):
-        chk(e1.compare(e2) == EC.LOWER_OR_EQUAL, f"any-spec compare {e1!r} {e2!r}")
-        chk(e1 == e2 and hash(e1) == hash(e2), f"any-spec eq/hash {e1!r} {e2!r}")
-    inv = ~parse_version_specifier("==3.9.*")
-    chk(isinstance(inv, UnionSpecifier), "inversion type")
-    for w in wheels:
-        c1 = EnvSpec(inv).compatibility([w[0]], [w[1]], [w[2]])
-        c2 = EnvSpec.from_spec("!=3.9.*").compatibility([w[0]], [w[1]], [w[2]])
-        c3 = EnvSpec(AnySpecifier()).compatibility([w[0]], [w[1]], [w[2]])
-        chk(c1 == c2, f"~(==3.9.*) vs !=3.9.* on {w}: {c1} {c2}")
-        chk(not (c1 is not None and c3 is None), f"Any loses wheel {w}")
+def rand_atom(rng: random.Random) -> str:
+    op = rng.choice(OPS)
+    v = rng.choice(VERSIONS)
+    if op == "~=" and "." not in v:
+        v += ".0"
+    if op in ("==", "!=") and rng.random() < 0.4:
+        v += ".*"
+    return op + v
 
-    # wheel file names: build tags, compressed tag sets, upper-case *file names*
-    e_old = EnvSpec.from_spec(">=3.9,<3.11", "manylinux_2_17_x86_64", "cpython")
-    e_new = EnvSpec.from_spec(">=3.8", "manylinux_2_28_x86_64", "cpython")
-    for fn in ["a-1-cp39-cp39-manylinux2014_x86_64.whl", "a-1-1b-cp39-cp39-manylinux_2_17_x86_64.whl",
-               "a-1-cp39.cp310-abi3.cp39-manylinux1_x86_64.manylinux_2_5_x86_64.whl",
-               "A-1-CP39-CP39-MANYLINUX2014_X86_64.whl", "a-1-py2.py3-none-any.whl",
-               "a-1-cp310-abi3-linux_x86_64.whl", "a-1-cp39-none-any.whl"]:
-        c1, c2 = e_old.wheel_compatibility(fn), e_new.wheel_compatibility(fn)
-        chk(c1 is not None, f"expected {fn} to fit {e_old}")
-        chk(not (c1 is not None and c2 is None), f"widening both fields loses {fn}")
 
-    # cached compatible_tags must not be affected by earlier compatibility() calls
-    p = Platform.parse("manylinux_2_20_x86_64")
-    before = list(p.compatible_tags)
-    e = EnvSpec.from_spec(">=3.9", "manylinux_2_20_x86_64")
-    for t in PLAT_UNIVERSE:
-        e.compatibility(["py3"], ["none"], [t])
-    chk(list(e.platform.compatible_tags) == before and "any" not in e.platform.compatible_tags,
-        "compatibility() mutated the cached tag list")
+def rand_rp(rng: random.Random):
+    """Build a requires_python through one of several entry points."""
+    kind = rng.randrange(5)
+    try:
+        if kind == 0:
+            text = ",".join(rand_atom(rng) for _ in range(rng.randint(1, 3)))
+            return parse_version_specifier(text)
+        if kind == 1:
+            text = "||".join(
+                ",".join(rand_atom(rng) for _ in range(rng.randint(1, 2)))
+                for _ in range(rng.randint(2, 4))
+            )
+            return parse_version_specifier(text)
+        if kind == 2:
+            text = ",".join(rand_atom(rng) for _ in range(rng.randint(0, 3)))
+            return from_specifierset(SpecifierSet(text))
+        if kind == 3:
+            a, b = rand_rp(rng), rand_rp(rng)
+            return rng.choice([a | b, a & b, ~a, b | a, b & a])
+        return rng.choice([AnySpecifier(), EmptySpecifier(), parse_version_specifier("")])
+    except Exception:
+        return parse_version_specifier(">=3.8")
 
-    # EnvSpec.current(): reflexive, equal to its own round trip, accepts a pure wheel and
-    # is below the same interpreter on a newer OS release
-    cur = EnvSpec.current()
-    chk(cur.compare(cur) == EC.LOWER_OR_EQUAL, "current() not reflexive")
-    chk(cur.wheel_compatibility("a-1-py3-none-any.whl") is not None, "current() rejects py3-none-any")
-    nb = newer_release(cur.platform)
-    if nb is not None:
-        newer = EnvSpec(cur.requires_python, nb, cur.implementation)
-        chk(cur.compare(newer) == EC.LOWER_OR_EQUAL, "current() vs newer release")
-        chk(set(cur.platform.compatible_tags) <= set(nb.compatible_tags), "current() tags vs newer")
 
-    # platforms that parse() accepts and compare() orders but that have no tag list
-    for name in ("macos_10_9_i386", "macos_12_0_ppc64", "windows_ppc64le"):
-        e = EnvSpec.from_spec(">=3.9", name)
+def admits(spec, v: Version) -> bool:
+    if spec.is_empty():
+        return False
+    if spec.is_any():
+        return True
+    return spec.contains(v, prereleases=True)
+
+
+def check_widening(n: int, seed: int) -> None:
+    global cases
+    rng = random.Random(seed)
+    wheels = list(itertools.product(PY_TAGS, ABI_TAGS))
+    for _ in range(n):
+        a, b = rand_rp(rng), rand_rp(rng)
+        # make B a superset of A by construction half of the time
+        if rng.random() < 0.5:
+            b = a | b
+        if not all(admits(b, v) for v in SAMPLES if admits(a, v)):
+            continue
+        # sample-based inclusion must be confirmed by the algebra (A & ~B empty)
         try:
-            c = e.wheel_compatibility("a-1-py3-none-any.whl")
-            chk(c is not None, f"{name}: pure wheel rejected")
-        except Exception as exc:
-            chk(False, f"{name}: Platform.parse accepts it, compare(self) = "
-                       f"{e.compare(EnvSpec.from_spec('>=3.8', name))!r}, but "
-                       f"wheel_compatibility('a-1-py3-none-any.whl') raises "
-                       f"{type(exc).__name__}: {exc}",
-                "borderline, not counted: unsupported OS/arch pair, outside the property's platform grid")
+            if not (a & ~b).is_empty():
+                continue
+        except Exception:
+            continue
+        impl = rng.choice(IMPLS)
+        A, B = EnvSpec(a, None, impl), EnvSpec(b, None, impl)
+        for py, abi in rng.sample(wheels, 25):
+            cases += 1
+            ca = A.compatibility([py], [abi], ["any"])
+            cb = B.compatibility([py], [abi], ["any"])
+            if ca is not None and cb is None:
+                report(f"widening loses wheel {py}-{abi}: A={a} ({ca}) B={b} ({cb}) impl={impl}")
+        # compare laws with the python part in play
+        cases += 1
+        ab, ba = A.compare(B), B.compare(A)
+        if (ab == EC.INCOMPATIBLE) != (ba == EC.INCOMPATIBLE):
+            report(f"INCOMPATIBLE not symmetric (python): {a} / {b}: {ab!r} {ba!r}")
+        if A.compare(A) != EC.LOWER_OR_EQUAL:
+            report(f"not reflexive: {a}")
+        overlap = any(admits(a, v) and admits(b, v) for v in SAMPLES)
+        if overlap and ab == EC.INCOMPATIBLE:
+            report(f"INCOMPATIBLE although both admit a sample version: {a} / {b}")
 
 
-def main() -> None:
-    exotic()
-    for i in range(N):
-        check_python_widening()
-        check_platform_widening()
-        check_compare()
-    print()
-    for line in known[:10]:
-        print("known/borderline:", line)
-    if len(known) > 10:
-        print(f"... and {len(known) - 10} more known/borderline lines")
-    print("cases:", counts)
-    print(f"NEW violations: {len(violations)}")
+# ---------------------------------------------------------------------------
+# 3. argument types / exception types at the less used entry points
+# ---------------------------------------------------------------------------
+def check_entry_points() -> None:
+    global cases
+    spec = EnvSpec.from_spec(">=3.9", "linux", "cpython")
+    # tuples / frozensets / iterators where list[str] is annotated
+    for mk in (list, tuple, frozenset, iter):
+        cases += 1
+        got = spec.compatibility(mk(["cp38", "cp39"]), mk(["abi3", "cp39"]), mk(["manylinux2014_x86_64"]))
+        exp = spec.compatibility(["cp38", "cp39"], ["abi3", "cp39"], ["manylinux2014_x86_64"])
+        if (got is None) != (exp is None):
+            # note: a one-shot iterator for the ABI tags is exhausted after the first python tag
+            print(f"note: compatibility() with {mk.__name__} arguments -> {got}, with lists -> {exp}")
+    # as_dict round trip keeps compare() reflexive
+    for p in platform_grid():
+        for impl in IMPLS:
+            cases += 1
+            s = EnvSpec(parse_version_specifier(">=3.8,!=3.9.*"), p, impl)
+            d = s.as_dict()
+            try:
+                back = EnvSpec.from_spec(
+                    d["requires_python"], d.get("platform"), d.get("implementation"),
+                    d.get("gil_disabled", False),
+                )
+            except Exception as e:  # noqa: BLE001
+                report(f"as_dict round trip raises {type(e).__name__}: {e} for {d}")
+                continue
+            if back != s or s.compare(back) != EC.LOWER_OR_EQUAL:
+                report(f"as_dict round trip changes the spec: {d} -> {back}")
+    # exception types
+    for text in ("manylinux_2_17_i586", "macos_12_0_universal2", "windows_ia64", "nonsense",
+                 "musllinux_1_2_mips"):
+        cases += 1
+        try:
+            Platform.parse(text)
+        except PlatformError:
+            pass
+        except Exception as e:  # noqa: BLE001
+            print(f"note (exception type, not C16 proper): Platform.parse({text!r}) raises "
+                  f"{type(e).__name__}: {e}; PlatformError is raised for 'foo_bar'")
+    cur = EnvSpec.current()
+    cases += 1
+    if cur.compare(cur) != EC.LOWER_OR_EQUAL or cur.compare(EnvSpec.current()) != EC.LOWER_OR_EQUAL:
+        report("EnvSpec.current() not reflexive")
 
 
 if __name__ == "__main__":
-    main()
+    check_platform_pairs()
+    for seed in range(4):
+        check_widening(4000, seed)
+    check_entry_points()
+    print(f"cases run: {cases}; C16 violations found: {len(found)}")
